@@ -46,6 +46,9 @@ type check struct {
 
 	shLists [][]sfn // shared-rule family
 
+	kinds     []*boxKind // box-kinds family
+	kindLists []listSpace
+
 	svgFns   []fn
 	svgCore  []fn
 	svgLists []listSpace
@@ -183,6 +186,38 @@ func (c *check) Init(tier string, seed int64) engine.Space {
 		func(u int64) any {
 			return "none keyword, case of function names, white space and comments inside / between functions"
 		}})
+	// ---- (ii'') the same menus on every kind of box that is wrapped / replaced by another box
+	c.kinds = boxKinds()
+	nK := int64(len(c.kinds))
+	if thorough {
+		c.kindLists = []listSpace{withO(mkSpace("box-kinds<=1(whole menu)", c.cssFns, 1, 1), c.origins),
+			withO(mkSpace("box-kinds=2(core menu)", c.cssCore, 2, 2), c.origins)}
+	} else {
+		c.kindLists = []listSpace{withO(mkSpace("box-kinds<=1(whole menu)", c.cssFns, 1, 1), c.origins),
+			withO(mkSpace("box-kinds=2(core menu)", c.cssCore, 2, 2), []origin{c.origins[2]})}
+	}
+	var kindCases int64
+	for _, ls := range c.kindLists {
+		ls := ls
+		nO := int64(len(ls.origins))
+		n := ls.sp.Count() * nO * nK
+		kindCases += n
+		// the kind varies fastest: one unit holds the same declarations on every kind
+		at := func(k int64) ([]fn, origin, *boxKind) {
+			return ls.at(k / nK / nO), ls.origins[(k/nK)%nO], c.kinds[k%nK]
+		}
+		c.sections = append(c.sections, section{ls.name, (n + cssBatch - 1) / cssBatch,
+			func(u int64, ctx *engine.Ctx) {
+				for k := u * cssBatch; k < (u+1)*cssBatch && k < n; k++ {
+					l, o, kind := at(k)
+					c.runKind(l, o, kind, ctx)
+				}
+			},
+			func(u int64) any {
+				l, o, kind := at(u * cssBatch)
+				return map[string]any{"first": cssDecls(l, o), "first_kind": kind.name, "cases": cssBatch}
+			}})
+	}
 	// ---- (ii') one rule shared by several blocks with different font sizes
 	c.shLists = sharedLists()
 	nSh := c.sharedCases()
@@ -268,7 +303,7 @@ func (c *check) Init(tier string, seed int64) engine.Space {
 	}
 	return engine.Space{
 		Units: units, Chunk: 4, Level: "model_checking",
-		Rule: "algebra: every matrix over the 6-value entry set (unary laws), every ordered pair over the 3-value set, every ordered triple over each 2-value set; css: every transform list of the prefix tree over the function menu, shortest first (lengths 1 and 2 over the whole menu x every transform-origin, length 3 over the menus and origins given in bounds.three_function_lists), plus a few special spellings; svg: the same for the SVG menu x every spelling. A css/svg case is non-trivial when the block/rect was painted and a Transform was handed to the backend (or, for a non-invertible list, when nothing was painted)",
+		Rule: "algebra: every matrix over the 6-value entry set (unary laws), every ordered pair over the 3-value set, every ordered triple over each 2-value set; css: every transform list of the prefix tree over the function menu, shortest first (lengths 1 and 2 over the whole menu x every transform-origin, length 3 over the menus and origins given in bounds.three_function_lists), plus a few special spellings; box-kinds: the lists and origins of bounds.box_kind_lists x every box kind of bounds.box_kinds (the declarations on the element itself); svg: the same for the SVG menu x every spelling. A css/svg case is non-trivial when the block/rect was painted and a Transform was handed to the backend (or, for a non-invertible list, when nothing was painted)",
 		Bounds: map[string]any{
 			"units_per_section":    secs,
 			"entry_set_unary":      set6,
@@ -282,6 +317,9 @@ func (c *check) Init(tier string, seed int64) engine.Space {
 			"css_core_functions":   names(c.cssCore),
 			"css_transform_origin": onames,
 			"css_renders":          cssCases,
+		"box_kinds":            kindNames(c.kinds),
+		"box_kind_renders":     kindCases,
+		"box_kind_lists":       map[string]string{"quick": "one function of the whole menu x every origin; two functions of the core menu x origin 1em 20%", "thorough": "one function of the whole menu, two functions of the core menu, both x every origin"}[tier],
 			"shared_rule":          map[string]any{"documents": nSh, "transform_lists": len(c.shLists), "structures": sharedStructs, "origins": []string{"(initial)", "transform-origin:1em 1ex"}, "blocks": "a: font-size 10px 40x20; b: 30px 60x30; c: 15px 20x10; html 20px; Ahem: ex=.8em ch=1em"},
 			"svg_functions":        names(c.svgFns),
 			"svg_core_functions":   names(c.svgCore),
@@ -295,7 +333,8 @@ func (c *check) Init(tier string, seed int64) engine.Space {
 			"the observed matrix is the product of the arguments of all GraphicState.Transform calls in effect (OnNewStack = save/restore) when the block / rect is filled, with the page matrix flip(150pt)·scale(0.75) removed for CSS (zoom 1, 200px page)",
 			"comparison tolerance for rendered matrices: |got-ref| <= 2e-4·(1+|ref|) per entry (float32 arithmetic in the implementation)",
 			"skew angles avoid tan singularities (0.125turn instead of 0.25turn) and near-singular products; for non-invertible lists (a factor scale(0) / scale(2, 0)) the element must either not be painted or be painted through the rank deficient reference matrix (no area): whether a rounded float32 determinant is exactly 0 is not decidable from the specification",
-			"one block (absolutely positioned, padding, no border) and one <rect>; nesting of transformed elements is not explored",
+			"one block (absolutely positioned, padding, no border) and one <rect>; nesting of transformed elements is explored by the shared-rule family only",
+		"box-kinds: the reference box is the painted background rectangle of the element (checked against the expected border box), extended by the 10px caption for the two caption kinds (CSS Transforms 1: the reference box of a table is the border box of its table wrapper box)",
 			"numbers/lengths/angles outside the listed representatives behave like their representative",
 		},
 	}
@@ -391,7 +430,7 @@ func (c *check) baselines(ctx *engine.Ctx) {
 }
 
 func (c *check) runCSS(list []fn, o origin, ctx *engine.Ctx) {
-	c.cssCase(cssDecls(list, o), func(w, h float64) M { return listRef(list, w, h) }, listSingular(list), o, listFeatures("css", list, o.tag), ctx)
+	c.cssCase(nil, cssDecls(list, o), func(w, h float64) M { return listRef(list, w, h) }, listSingular(list), o, listFeatures("css", list, o.tag), ctx)
 }
 
 // listSingular: the product is non-invertible iff one factor is (decided on the exact factors,
@@ -405,19 +444,45 @@ func listSingular(list []fn) bool {
 	return false
 }
 
+// runKind: the declarations of runCSS on the element of one box kind.
+func (c *check) runKind(list []fn, o origin, kind *boxKind, ctx *engine.Ctx) {
+	c.cssCase(kind, cssDecls(list, o), func(w, h float64) M { return listRef(list, w, h) }, listSingular(list), o, kindFeatures(list, o, kind), ctx)
+}
+
 // cssCase renders one document and compares the matrix in effect at the paint of the block
-// with T(origin)·ref·T(-origin).
-func (c *check) cssCase(decls string, refOf func(w, h float64) M, singular bool, o origin, feats []string, ctx *engine.Ctx) {
+// (kind == nil: the absolutely positioned block of the css family) with T(origin)·ref·T(-origin).
+func (c *check) cssCase(kind *boxKind, decls string, refOf func(w, h float64) M, singular bool, o origin, feats []string, ctx *engine.Ctx) {
 	c.baselines(ctx)
 	desc := "css: " + decls
+	baseErr, baseTransforms, wantRect := c.cssBaseErr, c.cssBaseTransforms, [4]float64{boxX, boxY, boxW, boxH}
+	if kind != nil {
+		desc = "css[" + kind.name + "]: " + decls
+		kind.baseline(func(d string, f func()) string {
+			if pi, _ := ctx.Guard(d, f); pi != nil {
+				return pi.Msg
+			}
+			return ""
+		})
+		baseErr, baseTransforms, wantRect = kind.baseErr, kind.baseTransforms, kind.want
+	}
 	ctx.Trans(1)
-	if c.cssBaseErr != "" {
+	if baseErr != "" {
 		ctx.Case(false, "no-baseline")
-		ctx.Fail(engine.Failure{Clause: "harness-baseline", Features: []string{"css"}, Case: desc, Detail: c.cssBaseErr})
+		bf := []string{"css"}
+		if kind != nil {
+			bf = append(bf, kind.tag())
+		}
+		ctx.Fail(engine.Failure{Clause: "harness-baseline", Features: bf, Case: desc, Detail: baseErr})
 		return
 	}
 	var r cssResult
-	if !ctx.GuardFail(desc, feats, func() { r = renderCSS(decls) }) {
+	if !ctx.GuardFail(desc, feats, func() {
+		if kind != nil {
+			r = renderHTML(kind.html(decls))
+		} else {
+			r = renderCSS(decls)
+		}
+	}) {
 		ctx.Case(false, "panic")
 		return
 	}
@@ -433,13 +498,17 @@ func (c *check) cssCase(decls string, refOf func(w, h float64) M, singular bool,
 		return
 	}
 	// the reference box is the border box = the painted background rectangle
-	x, y, w, h := r.rect[0], r.rect[1], r.rect[2], r.rect[3]
-	if r.rect != [4]float64{boxX, boxY, boxW, boxH} {
+	if r.rect != wantRect {
 		ctx.Count("css:unexpected-border-box", 1)
 	}
+	box := r.rect
+	if kind != nil && kind.ref != nil {
+		box = kind.ref(box)
+	}
+	x, y, w, h := box[0], box[1], box[2], box[3]
 	ox, oy := x+o.x.resolve(w), y+o.y.resolve(h)
 	ref := mul(mul(translation(ox, oy), refOf(w, h)), translation(-ox, -oy))
-	dropped := r.transforms == c.cssBaseTransforms
+	dropped := r.transforms == baseTransforms
 	ctx.Case(!dropped, r.obs.key())
 	if dropped {
 		// no Transform call at all: the declaration was ignored. Unobservable when the
@@ -492,7 +561,7 @@ func (c *check) runCSSSpecials(ctx *engine.Ctx) {
 		{"skewX(0) translateX(10px)", translation(10, 0), "special:unitless-zero-angle"},
 	} {
 		s := s
-		c.cssCase("transform:"+s.value, func(w, h float64) M { return s.ref }, false, def, []string{"css", s.tag, def.tag}, ctx)
+		c.cssCase(nil, "transform:"+s.value, func(w, h float64) M { return s.ref }, false, def, []string{"css", s.tag, def.tag}, ctx)
 	}
 }
 
@@ -606,21 +675,31 @@ func (c *check) FeaturesOf(desc string) []string {
 		}
 		return out
 	}
+	var kind *boxKind
+	if k, rest, ok := kindOfDesc(desc); ok {
+		kind = kindByName(c.kinds, k)
+		desc = "css: " + rest
+	}
 	switch {
 	case strings.HasPrefix(desc, "css: transform:"):
 		rest := strings.TrimPrefix(desc, "css: transform:")
-		tag := "origin:default"
+		org := c.origins[0]
 		if i := strings.Index(rest, ";"); i >= 0 {
 			for _, o := range c.origins {
 				if o.css == rest[i+1:] {
-					tag = o.tag
+					org = o
 				}
 			}
 			rest = rest[:i]
 		}
-		return listFeatures("css", find(c.cssFns, rest), tag)
+		if kind != nil {
+			return kindFeatures(find(c.cssFns, rest), org, kind)
+		}
+		return listFeatures("css", find(c.cssFns, rest), org.tag)
 	case strings.HasPrefix(desc, "svg:"):
 		return []string{"svg"}
+	case kind != nil:
+		return []string{"css", kind.tag()}
 	}
 	return []string{"algebra"}
 }
